@@ -1289,12 +1289,12 @@ def stress_cases(ctx):
     """(family, kind, args, stdin, program-or-None, expect_nontermination).  kind 'dsl' runs `mlr -n put -f <file>`.
     The generated LR parser and the recursive CST builder/evaluator, json decoder and flatten/unflatten recurse on the nesting
     depth: a Go stack overflow ("goroutine stack exceeds") would be a fatal error, i.e. a violation.  Depths: linear-cost
-    families go to 3*10^3 (quick) / 10^5 (thorough); families whose cost is quadratic in the depth on this tree (nested map/array
+    families go to 2*10^3 (quick) / 10^5 (thorough); families whose cost is quadratic in the depth on this tree (nested map/array
     literals, nested JSON objects, UDF recursion: observed, finite) stay at depths that finish in seconds."""
     rng = ctx.rng
     T = ctx.tier == "thorough"
-    N = 100000 if T else 3000          # linear families
-    Q = 4000 if T else 500             # quadratic families
+    N = 100000 if T else 2000          # linear families
+    Q = 4000 if T else 300             # quadratic families
     cases = []
     dsl = lambda fam, p, nonterm=False: cases.append((fam, "dsl", None, b"", p, nonterm))
     dsl("deep-parens", "end{print " + "(" * N + "1" + ")" * N + "}")
@@ -1341,6 +1341,24 @@ def stress_cases(ctx):
     dsl("func-wrong-arity-call", "func f(x){return 1} end{print f(1,2)}")
     dsl("func-no-return", "func f(x){ } end{print f(1)}")
     dsl("funct-literal-wrong-arity", "end{print apply([1,2], func(a,b,c){return 1}); print sort([1,2], func(a){return 1}); print fold([1,2], func(a){return 1}, 0); print reduce([], func(){return 1})}")
+    # collections with nested kinds (array containing map containing empty map / empty array / empty string), function literals of
+    # the wrong arity handed to the higher-order functions, variadic functions with 4 and 5 arguments, through the real binary
+    X = 'x=[{"a":{"b":[{},[],"",{}]}}, {}, [], [[],[{}]]];'
+    dsl("nested-kinds-collections", "end{" + X + 'print flatten({"a":x},":"); print unflatten({"a.b":x},"."); print arrayify({"1":{"1":x}}); print depth(x); print leafcount(x); '
+        'print get_keys(x); print get_values(x); print mapdiff({"a":x},{"a":{}}); print mapsum({"a":x},{}); print sort(x); print concat(x,[],{}); print append(x,{}); '
+        'print haskey(x,-1); print x[1]["a"]["b"][2]; print asserting_not_null(x); print typeof(x[2]); print is_empty_map(x[2]); print length(x); print x[2:3]; '
+        'print json_parse(json_stringify(x)); print json_stringify(x, "multiline"); print sort_collection(x)}')
+    dsl("nested-kinds-hofs", "end{" + X + 'print apply(x, func(e){return e}); print select(x, func(e){return is_map(e)}); print reduce(x, func(acc,e){return acc}); '
+        'print fold(x, func(acc,e){return acc}, {}); print any(x, func(e){return is_empty_map(e)}); print every(x, func(e){return is_map(e)}); print sort(x, func(a,b){return 0}); '
+        'print apply({}, func(k,v){return {k:v}}); print select({}, func(k,v){return true}); print reduce([], func(acc,e){return acc}); print fold({}, func(acck,accv,ek,ev){return {ek:ev}}, {"a":x})}')
+    dsl("variadic-4-5-args", "end{" + X + 'print format("{}:{}:{}:{}",x,{},[],""); print min(x,{},[],1,""); print max(x,{},[],1,""); print mapsum({},{},{},{"a":x}); print mapdiff({"a":x},{},{},{}); '
+        'print strfntime_local(1,"%Y","Asia/Tokyo"); print splitax("a,b",","); print percentiles([1,2,3],[25,75],{"interpolate_linearly":true,"output_array_not_map":true}); '
+        'print percentiles(x,[50]); print unformat("{}:{}","1:2"); print strptime("2023","%Y"); print exec("/bin/true",[],{}); print system("true")}')
+    for nm, ex in (("apply", "apply([1,2], func(a,b,c){return 1})"), ("sort", "sort([1,2], func(a){return 1})"), ("fold", "fold([1,2], func(a){return 1}, 0)"),
+                   ("reduce", "reduce([1], func(){return 1})"), ("select-map", "select({\"a\":1}, func(e){return true})"), ("any", "any([1], func(a,b){return true})")):
+        dsl("hof-wrong-arity-" + nm, "end{print " + ex.replace('\\"', '"') + "}")
+    dsl("absent-in-array-literal", "end{print [1,@nosuch]}")
+    dsl("absent-in-map-literal", 'end{print {"a":@nosuch, "b":$nosuch}}')
     R = 20000 if T else 1000
     dsl("bounded-recursion", "func f(n) { if (n<=0) {return 0} return 1+f(n-1) } end{print f(%d)}" % R)
     dsl("bounded-mutual-recursion", "func f(n) { if (n<=0) {return 0} return 1+g(n-1) } func g(n) { return f(n) } end{print f(%d)}" % R)
@@ -1384,7 +1402,7 @@ def stress_part(ctx):
             f = d / ("stress_%d.mlr" % i)
             f.write_bytes(prog.encode("latin1"))
             args = ["-n", "put", "-f", str(f)]
-        to = 12 if nonterm else 90
+        to = 8 if nonterm else 90
         if nonterm:     # one attempt only: the cap is the expected outcome
             st, out, err = mlr_run(ctx, args, data, timeout=to, max_out=50_000_000, env=SAFE_ENV, cwd=SANDBOX["dir"])
         else:
@@ -1431,14 +1449,20 @@ def run(ctx):
                        "(2) valid documents of 16 input formats x reader option sets x grammar-aware mutations (truncation at every byte, "
                        "nasty-token insertion, ragged lines, huge fields, CR/LF, BOM, invalid UTF-8, NUL) classified ok|mlr_error|panic|internal|hang; "
                        "directories and truncated gzip as inputs; DKVP/NIDX/TSV line-reader models compared record-for-record (hex dump through the DSL); "
-                       "(3) token-level mutations of the put/filter expressions of test/cases; a case is non-trivial when its input is distinct")
+                       "(2b) classified CSV / CSV-lite / PPRINT / XTAB reader models (coq/C18/ModelReaders.v) compared on seeds, hand-written corner documents, truncations, random "
+                       "quote/separator/CR/LF strings and grammar-aware mutants x 46 option sets: records, or error class with the numbers of the message; "
+                       "(3) token-level mutations of the put/filter expressions of test/cases; (4) stress families: nesting depth 2*10^3 (quick) / 10^5 (thorough) in every "
+                       "recursive construct of the DSL grammar, long tokens, junk / NUL / invalid UTF-8 bytes, redefinitions, bounded and unbounded recursion, deep JSON / YAML / "
+                       "flatten / unflatten, nested-kind collections and wrong-arity function literals; a case is non-trivial when its input is distinct")
     ctx.cov["trusted_base"] = ["Coq 8.16.1 kernel + vm_compute", "no axioms (Print Assumptions: closed under the global context)",
                                "implrun bif-matrix driver + the add-only export pkg/dsl/cst/zz_verif_c18.go (invokes table rows as the callsite nodes do)",
                                "instrumented scratch copy: os.Exit( of Miller's packages textually redirected to pkg/verifexit (hook: observe the exit, keep the process)",
                                "python harness; classification of runs by exit status / stderr patterns / wall-clock and output caps"]
     ctx.assumptions = ["argument kinds are covered by representatives (37), not by all values: a panic that needs a specific value outside them is not seen by part 1",
                        "hang = no progress for 4 s inside one call (in-process) / 8-25 s wall clock (mlr runs)",
-                       "readers other than DKVP/NIDX/TSV are not modelled in Coq here (C01/C02 hold those models); they are covered by the mutation harness only",
+                       "readers modelled in Coq here: DKVP, NIDX, TSV, CSV, CSV-lite, PPRINT (non-barred), XTAB with the options named in ModelReaders.v; JSON, YAML, markdown, DKVPX, USV/ASV, DCF, recutils, barred PPRINT, regex separators, comment handling are covered by the mutation harness only",
+                       "CSV error precedence (a reported quote error wins over an earlier length mismatch) is modelled for inputs within one reader batch (500 records)",
+                       "a DSL program that does not terminate (unbounded recursion) is the user's: the wall-clock cap is its expected outcome; only a Go fatal error would be a violation",
                        "the DSL front end is exercised, not modelled"]
     exe = build_instrumented(ctx)
     SANDBOX["dir"] = tempfile.mkdtemp(prefix="verif-c18-cwd.")
